@@ -51,7 +51,11 @@ func lazyBubble(c *explore.Ctx, sp lazySpec, sh sharder) (out outcome) {
 	}
 	outage, lost, lostCalls := false, false, 0
 	defer func() { out.lost = lostCalls }()
+	stopping := false // a clean stop is in progress: a Submit made with the cancelled context is answered "cancelled" (see part 1)
 	env.DA.SubmitPolicy = func(blobs [][]byte) world.SubmitAnswer {
+		if stopping {
+			return world.SubmitCanceled
+		}
 		if outage {
 			return world.SubmitGenericError
 		}
@@ -134,9 +138,11 @@ func lazyBubble(c *explore.Ctx, sp lazySpec, sh sharder) (out outcome) {
 			cancel()
 		} else {
 			out.events = append(out.events, fmt.Sprintf("before DA block %d: clean-stop+restart", at))
+			stopping = true
 			cancel()
 			sched.Drain()
 			n.Fate.Kill()
+			stopping = false
 		}
 		sched.Drain()
 		synctest.Wait()
